@@ -19,7 +19,21 @@
 #include <fstream>
 #include <sstream>
 
+#ifdef VERIF_TSAN
+// ThreadSanitizer flavour of the engine (C17): the first report ends the child (exit code 66); the Case reporting
+// functions are serialised because harness threads share the result page.
+#include <mutex>
+static std::mutex g_case_mu;
+#define CASE_LOCK std::lock_guard<std::mutex> case_lock_(g_case_mu)
+static int __lsan_do_recoverable_leak_check(void) { return 0; }
+extern "C" const char *__tsan_default_options() {
+  return "halt_on_error=1:exitcode=66:report_signal_unsafe=0:history_size=4:second_deadlock_stack=1:"
+         "external_symbolizer_path=/usr/bin/llvm-symbolizer-14";
+}
+#else
+#define CASE_LOCK do {} while (0)
 extern "C" int __lsan_do_recoverable_leak_check(void);
+#endif
 extern "C" const char *__asan_default_options() {
   return "exitcode=42:detect_leaks=1:leak_check_at_exit=0:abort_on_error=0:handle_abort=0:allocator_may_return_null=1:"
          "detect_stack_use_after_return=0:malloc_context_size=12:fast_unwind_on_malloc=1:symbolize=1:"
@@ -56,7 +70,9 @@ uint64_t fnv1a(const void *p, size_t n, uint64_t h) {
 std::string strf(const char *fmt, ...) {
   char buf[4096]; va_list ap; va_start(ap, fmt); vsnprintf(buf, sizeof buf, fmt, ap); va_end(ap); return buf;
 }
-void Case::desc(const std::string &s) {
+static void desc_unlocked(const std::string &s);
+void Case::desc(const std::string &s) { CASE_LOCK; desc_unlocked(s); }
+static void desc_unlocked(const std::string &s) {
   size_t room = sizeof(g_shm->desc) - 1 - g_shm->desclen;
   size_t n = s.size() < room ? s.size() : room;
   memcpy(g_shm->desc + g_shm->desclen, s.data(), n); g_shm->desclen += n; g_shm->desc[g_shm->desclen] = 0;
@@ -66,6 +82,7 @@ void Case::descf(const char *fmt, ...) {
 }
 std::string Case::description() const { return std::string(g_shm->desc, g_shm->desclen); }
 void Case::cls(const char *name, unsigned n) {
+  CASE_LOCK;
   for (uint32_t i = 0; i < g_shm->nclasses; i++)
     if (!strncmp(g_shm->classes[i].name, name, sizeof(g_shm->classes[i].name) - 1)) { g_shm->classes[i].n += n; return; }
   if (g_shm->nclasses < 160) {
@@ -73,16 +90,17 @@ void Case::cls(const char *name, unsigned n) {
     snprintf(c.name, sizeof c.name, "%s", name); c.n = n;
   }
 }
-void Case::attempt(const std::string &s) { snprintf(g_shm->attempt, sizeof g_shm->attempt, "%s", s.c_str()); }
-void Case::nontrivial() { g_shm->nontrivial = 1; }
-void Case::checks(unsigned n) { g_shm->checks += n; }
+void Case::attempt(const std::string &s) { CASE_LOCK; snprintf(g_shm->attempt, sizeof g_shm->attempt, "%s", s.c_str()); }
+void Case::nontrivial() { CASE_LOCK; g_shm->nontrivial = 1; }
+void Case::checks(unsigned n) { CASE_LOCK; g_shm->checks += n; }
 void Case::excluded(const char *id) { std::string s = std::string("excluded_known:") + id; cls(s.c_str()); }
 void Case::fail(const char *rule, const char *fmt, ...) {
+  CASE_LOCK;
   snprintf(g_shm->failrule, sizeof g_shm->failrule, "%s", rule);
   va_list ap; va_start(ap, fmt); vsnprintf(g_shm->failmsg, sizeof g_shm->failmsg, fmt, ap); va_end(ap);
   _exit(1);
 }
-void Case::discard() { g_shm->discarded = 1; _exit(0); }
+void Case::discard() { CASE_LOCK; g_shm->discarded = 1; _exit(0); }
 
 // ---------------------------------------------------------------------------------------------------------
 struct Tape { std::vector<uint32_t> head; std::vector<std::vector<uint32_t>> ops; std::string named; };
@@ -127,6 +145,9 @@ static std::string first_hwloc_frame(const std::string &err, size_t from) {
   std::regex fr("#[0-9]+ 0x[0-9a-f]+ in ([A-Za-z0-9_]+) [^\\n]*/(hwloc|include|utils)/[^\\n]*");
   std::smatch m; std::string tail = err.substr(from);
   if (std::regex_search(tail, m, fr)) return m[1];
+  // ThreadSanitizer prints frames without the address: "#0 func /path/file.c:12:3 (binary+0x...)"
+  std::regex fr2("#[0-9]+ ([A-Za-z0-9_]+) [^\\n]*/(hwloc|include|utils)/[^\\n]*");
+  if (std::regex_search(tail, m, fr2)) return m[1];
   return "?";
 }
 static void classify_crash(const std::string &err, int status, Outcome &o) {
@@ -136,7 +157,12 @@ static void classify_crash(const std::string &err, int status, Outcome &o) {
   static const std::regex asan("ERROR: AddressSanitizer: ([A-Za-z0-9_-]+)");
   static const std::regex ubsan("([A-Za-z0-9_.+-]+):[0-9]+:[0-9]+: runtime error: ([^\\n]*)");
   static const std::regex lsan("ERROR: LeakSanitizer: detected memory leaks");
-  if (std::regex_search(err, m, as)) {
+  static const std::regex tsan("(?:WARNING|ERROR): ThreadSanitizer: ([A-Za-z -]+[A-Za-z])");
+  if (std::regex_search(err, m, tsan)) {
+    std::string kind = m[1]; for (auto &ch : kind) if (ch == ' ') ch = '-';
+    o.signature = "tsan:" + kind + ":" + first_hwloc_frame(err, m.position(0));
+    o.msg = err.substr(m.position(0), 4000); return;
+  } else if (std::regex_search(err, m, as)) {
     std::string expr = m[1]; std::string fn = "?"; std::smatch m2; if (std::regex_search(err, m2, asfn)) fn = m2[1];
     o.signature = "assert:" + fn + ":" + expr;
   } else if (std::regex_search(err, m, asan)) {
@@ -172,6 +198,7 @@ static Outcome evaluate(const Tape &t, unsigned cpu_limit) {
     int nul = open("/dev/null", O_WRONLY); if (nul >= 0) { dup2(nul, 1); close(nul); }
     struct rlimit rl; rl.rlim_cur = cpu_limit; rl.rlim_max = cpu_limit + 2; setrlimit(RLIMIT_CPU, &rl);
     struct rlimit core = {0, 0}; setrlimit(RLIMIT_CORE, &core);
+    if (g_cfg.wall_limit_s) alarm(g_cfg.wall_limit_s);   // blocked threads burn no CPU: the CPU limit alone would never fire
     Case c; c.head.v = &t.head; c.ops.resize(t.ops.size());
     for (size_t i = 0; i < t.ops.size(); i++) c.ops[i].v = &t.ops[i];
     if (!t.named.empty()) {
@@ -188,7 +215,7 @@ static Outcome evaluate(const Tape &t, unsigned cpu_limit) {
   while (waitpid(pid, &status, 0) < 0 && errno == EINTR) {}
   if (h_after_case_parent) h_after_case_parent();
   if (WIFEXITED(status) && WEXITSTATUS(status) == 0) { o.kind = g_shm->discarded ? Outcome::DISCARD : Outcome::OK; return o; }
-  if (WIFSIGNALED(status) && (WTERMSIG(status) == SIGXCPU || WTERMSIG(status) == SIGKILL)) { o.kind = Outcome::TIMEOUT; o.signature = "hang"; o.msg = "CPU limit exceeded"; return o; }
+  if (WIFSIGNALED(status) && (WTERMSIG(status) == SIGXCPU || WTERMSIG(status) == SIGKILL || (g_cfg.wall_limit_s && WTERMSIG(status) == SIGALRM))) { o.kind = Outcome::TIMEOUT; o.signature = "hang"; o.msg = "CPU limit exceeded"; return o; }
   o.kind = Outcome::FAIL;
   if (g_shm->attempt[0]) { Case tmp; tmp.desc(std::string("\n [died or failed during: ") + g_shm->attempt + "]"); }
   if (WIFEXITED(status) && WEXITSTATUS(status) == 1 && g_shm->failrule[0]) {
